@@ -2342,4 +2342,153 @@ func ruleDecHeadroom(c *Ctx) {
 	if n == 0 {
 		c.fail(fnName(fn)+":BufferSize-default", fn.Pos(), "SetDefaults does not set BufferSize")
 	}
+	// the default must be allowed to apply: in DecoderBuffer.Init no field of the caller's
+	// configuration is stored before SetDefaults ran on it
+	db := c.decBuf()
+	if init := c.method(db, "Init"); init != nil {
+		ifi := c.info(init)
+		var sd *ssa.Call
+		for _, b := range init.Blocks {
+			for _, in := range b.Instrs {
+				if call, ok := in.(*ssa.Call); ok && call.Call.StaticCallee() == fn {
+					sd = call
+				}
+			}
+		}
+		if sd == nil {
+			c.fail(fnName(init)+":defaults-first", init.Pos(), "Init does not call DecoderConfig.SetDefaults")
+		} else {
+			early := ""
+			for _, b := range init.Blocks {
+				for _, in := range b.Instrs {
+					st, ok := in.(*ssa.Store)
+					if !ok {
+						continue
+					}
+					fa, ok := st.Addr.(*ssa.FieldAddr)
+					if !ok || fa.X != sd.Call.Args[0] {
+						continue
+					}
+					if !ifi.instrReaches(sd, st) || ifi.instrReaches(st, sd) {
+						early = c.pos(st.Pos())
+					}
+				}
+			}
+			c.check(early == "", fnName(init)+":defaults-first", sd.Pos(), "no field of the configuration is stored before SetDefaults",
+				"Init stores a configuration field (at "+early+") before SetDefaults: a BufferSize left zero no longer gets the default 2·WindowSize (a reused buffer's capacity is taken instead) and valid sequences up to the window size can be refused")
+		}
+	}
+	// BufferSize only grows after initialisation: every store of the field alone is made under old < new
+	nSt := 0
+	for _, m := range c.methodsOf(db) {
+		mfi := c.info(m)
+		per := 0
+		for _, b := range m.Blocks {
+			for _, in := range b.Instrs {
+				st, ok := in.(*ssa.Store)
+				if !ok {
+					continue
+				}
+				f := fieldOfAddr(st.Addr)
+				if f == nil || f.Name() != "BufferSize" {
+					continue
+				}
+				if _, isFA := st.Addr.(*ssa.FieldAddr); !isFA {
+					continue
+				}
+				nSt++
+				per++
+				key := fmt.Sprintf("%s:BufferSize-store#%d", fnName(m), per)
+				nv := mfi.lin(st.Val)
+				grows := false
+				for _, a := range mfi.atomsWithSuffix(".BufferSize") {
+					if mfi.proveAt(linAtom(a).sub(nv), b, nil) {
+						grows = true
+					}
+				}
+				c.check(grows, key, st.Pos(), "BufferSize is only raised (old ≤ new at the store)",
+					"BufferSize is stored with "+nv.String()+" without old ≤ new being established: the buffer limit can drop below 2·WindowSize in mid-stream and valid sequences are refused")
+			}
+		}
+	}
+	if nSt == 0 {
+		c.add("info", "lz.DecoderBuffer:BufferSize-store", token.NoPos, "no field store to BufferSize outside whole-value initialisation")
+	}
+}
+
+// ---------------------------------------------------------------- R-STALECAP
+
+func init() {
+	reg(&Rule{ID: "R-STALECAP", Min: 2,
+		Doc: "a value computed from DecoderBuffer.BufferSize before a call that may store BufferSize (the compaction function adopts cap(Data)) is not used in a comparison after that call: free-space tests after the call re-read BufferSize",
+		Run: ruleStaleCap})
+}
+
+func ruleStaleCap(c *Ctx) {
+	db := c.decBuf()
+	n := 0
+	for _, fn := range c.methodsOf(db) {
+		fi := c.info(fn)
+		per := 0
+		for _, b := range fn.Blocks {
+			for _, in := range b.Instrs {
+				call, ok := in.(*ssa.Call)
+				if !ok || call.Call.StaticCallee() == nil {
+					continue
+				}
+				writes := false
+				for _, k := range c.mayWrite(call.Call.StaticCallee()) {
+					if strings.HasPrefix(k, "p0.") && lastField(k) == "BufferSize" {
+						writes = true
+					}
+				}
+				if !writes {
+					continue
+				}
+				n++
+				per++
+				key := fmt.Sprintf("%s:call#%d", fnName(fn), per)
+				bad := ""
+				for _, b2 := range fn.Blocks {
+					for _, in2 := range b2.Instrs {
+						cmp, isB := in2.(*ssa.BinOp)
+						if !isB {
+							continue
+						}
+						switch cmp.Op {
+						case token.LSS, token.LEQ, token.GTR, token.GEQ, token.EQL, token.NEQ:
+						default:
+							continue
+						}
+						if !isIntType(cmp.X.Type()) || !fi.instrReaches(call, cmp) {
+							continue
+						}
+						// the comparison must not be re-reachable only via a re-computation: look at its operands' atoms
+						for _, side := range []ssa.Value{cmp.X, cmp.Y} {
+							for a := range fi.lin(side).t {
+								ld, isLd := fi.atomValue(a).(*ssa.UnOp)
+								if !isLd || ld.Op != token.MUL {
+									continue
+								}
+								f := fieldOfAddr(ld.X)
+								if f == nil || f.Name() != "BufferSize" {
+									continue
+								}
+								// the atom denotes BufferSize as loaded by ld: stale if that load precedes the call
+								// on a path to the comparison and cannot follow it
+								if fi.instrReaches(ld, call) && c.reachesAvoiding(fi, call, cmp, []ssa.Instruction{ld}) {
+									bad = fmt.Sprintf("the comparison at %s uses BufferSize as read at %s, before the call at %s that may change it", c.pos(cmp.Pos()), c.pos(ld.Pos()), c.pos(call.Pos()))
+								}
+							}
+						}
+					}
+				}
+				c.check(bad == "", key, call.Pos(), "no comparison after this call uses a BufferSize value read before it",
+					bad+": when the call adopts a larger capacity as BufferSize the free space is under-estimated and a sequence that fits is refused with ErrFullBuffer")
+			}
+		}
+	}
+	if n == 0 {
+		c.fail("stalecap", token.NoPos, "no call that may store BufferSize found in the DecoderBuffer methods")
+	}
 }
